@@ -14,6 +14,17 @@ pub fn element_value<P: BigintCtxParams>(e: &BigUintE<P>) -> &BigUint {
 pub fn exponent_value<P: BigintCtxParams>(x: &BigUintX<P>) -> &BigUint {
     &x.0
 }
+/// (p, q, g, cofactor) of the context
+pub fn params_of<P: BigintCtxParams>(
+    ctx: &BigintCtx<P>,
+) -> (&BigUint, &BigUint, &BigUint, &BigUint) {
+    (
+        &ctx.params.modulus().0,
+        &ctx.params.exp_modulus().0,
+        &ctx.params.generator().0,
+        ctx.params.co_factor(),
+    )
+}
 pub fn plaintext_raw(value: BigUint) -> BigUintP {
     BigUintP(value)
 }
